@@ -33,13 +33,18 @@ class Verifier:
         for con in cons:
             if props_filter and not (con.all_props & set(props_filter)) and not con.opts.get('always'):
                 continue
+            if con.opts.get('trusted'):
+                self.col.notes.append({'trusted_contract': target, 'reason': con.opts.get('trusted')})
+                continue
             self.verify(info, con)
 
     def verify(self, info, con):
         self.col.functions.add(info.qualname)
         alts = [a for _, a in con.params]
-        for case in itertools.product(*alts):
-            cname = ','.join(case)
+        insts = con.opts.get('instances') or [con.opts.get('instance', 'scaled')]
+        for inst, case in itertools.product(insts, itertools.product(*alts)):
+            cname = ','.join(case) + ('@' + inst if len(insts) > 1 else '')
+            self.cur_instance = inst
             try:
                 self.verify_case(info, con, case)
             except Unsupported as e:
@@ -63,6 +68,17 @@ class Verifier:
                 continue
             v = ex.C.fresh_by_annotation(ann, st, pname)
             env[pname] = v
+        self.free_env = {}
+        for n, ann in (con.opts.get('free') or {}).items():
+            if ann == 'vclass':
+                from .arith import VCLASS
+                v = VCLASS
+            elif ann in ('V0', 'V1'):
+                v = ex.C.const_field(st, ann)
+            else:
+                v = ex.C.fresh_by_annotation(ann, st, n)
+            self.free_env[n] = v
+            env[n] = v
         # classmethod: cls parameter is the owner class itself (A-dispatch: no subclasses)
         if info.kind == 'classmethod':
             first = info.params()[0]
@@ -71,16 +87,18 @@ class Verifier:
 
     def verify_case(self, info, con, case):
         ex = self.new_exec()
-        ex.instance = con.opts.get('instance', 'scaled')
+        ex.instance = getattr(self, 'cur_instance', None) or con.opts.get('instance', 'scaled')
         for hk in self.hooks:
             hk(ex)
         ex.cur_func = info
         ex.cur_props = con.props
-        cname = ','.join(case)
+        cname = ','.join(case) + ('@' + ex.instance if con.opts.get('instances') else '')
         st, env = self.initial_state(ex, info, con, case)
         # map contract parameter names onto the function's parameter names (positional)
         fparams = info.params()
         cparams = [p for p, _ in con.params]
+        for n in (con.opts.get('free') or {}):
+            pass
         if info.kind == 'classmethod' and (not cparams or cparams[0] != fparams[0]):
             cparams = [fparams[0]] + cparams
         if len(cparams) != len(fparams):
@@ -94,7 +112,18 @@ class Verifier:
                      list(st.pc), z3.BoolVal(True), must='sat')
         self.observe = self.observables(ex, env, st)
         pre = st.fork()
-        fr = ex.new_frame(st, info, None, info.owner, info.module)
+        parent_fid = None
+        free = con.opts.get('free')
+        if free:
+            pf = ex.new_frame(st, info.parent, None, info.owner, info.module)
+            parent_fid = pf.fid
+            for n, v in self.free_env.items():
+                st.envs[pf.fid][n] = v
+            # sibling closures are visible by name
+            if info.parent is not None:
+                for nm, g in info.parent.nested().items():
+                    st.envs[pf.fid].setdefault(nm, SFunc(g, parent_fid=pf.fid))
+        fr = ex.new_frame(st, info, parent_fid, info.owner, info.module)
         for cp, fp in zip(cparams, fparams):
             st.envs[fr.fid][fp] = env[cp]
         # keyword-only params
@@ -221,12 +250,15 @@ class Verifier:
         allowed_fields = {}
         allowed_all = set()
         allowed_cattr = set()
+        allowed_ghost = set()
         for m in ctx.modifies:
             if m[0] == 'field':
                 cname = ex.C.field_owner(m[1].cname, m[2])
                 allowed_fields.setdefault((cname, m[2]), []).append(m[1].t)
             elif m[0] == 'all':
                 allowed_all.add((m[1], m[2]))
+            elif m[0] == 'ghost':
+                allowed_ghost.add('g:' + m[1])
             else:
                 allowed_cattr.add((m[1], m[2]))
         for key, arr in st.heap.items():
@@ -241,6 +273,12 @@ class Verifier:
             goal = z3.Implies(z3.And(r >= 1, r < a0, *excl), z3.Select(arr, r) == z3.Select(old, r))
             col.add('FRAME', con.props, info.qualname, '%s:%s.%s' % (ptag, key[0].rsplit('.', 1)[-1], key[1]),
                     'pre-existing objects keep %s.%s' % key, asm, goal)
+        for gk, gv in st.ghost.items():
+            if isinstance(gk, str) and gk.startswith('g:') and gk not in allowed_ghost:
+                ov = pre.ghost.get(gk)
+                if ov is not None and hasattr(gv, 't') and not gv.t.eq(ov.t):
+                    col.add('FRAME', con.props, info.qualname, '%s:ghost-%s' % (ptag, gk[2:]),
+                            'ghost %s unchanged' % gk[2:], asm, gv.t == ov.t)
         for key in st.ghost.get('cattr_writes', []):
             if key not in allowed_cattr:
                 col.add('FRAME', con.props, info.qualname, '%s:cattr-%s' % (ptag, key[1]),
